@@ -65,47 +65,107 @@ theorem parseSlots_all (rec : Rec) (el elSize ptr : Nat) (buf : Bytes) (slots : 
         simpa using this
       simp [parseSlots, sliceBytes, hle, hrec, hrest]
 
-/-- **VecDeque end to end** (capacity within the guard): header says `len = n`, `head`, capacity `cap`, pointer `p`; the
-    element decoder shows `items[i]` on the image in slot `(head + i) % cap` of the buffer ⇒ the deque is shown as exactly
-    `items`, in logical order — for every ring position, wrapped or not. -/
+/-- a window of `cnt` slots starting at slot `start` of a buffer, read on its own (as `specialize` reads the head part and
+    the wrapped part of a ring), decodes to what the element decoder shows on the buffer's slots `start + i` -/
+theorem parseSlots_window (rec : Rec) (el elSize p : Nat) (buf : Bytes) (start cnt : Nat) (items : List Val)
+    (hfit : (start + cnt) * elSize ≤ buf.length) (hl : items.length = cnt)
+    (h : ∀ i (_ : i < cnt) (h' : i < items.length),
+      rec (some ⟨(buf.drop ((start + i) * elSize)).take elSize, some (p + (start + i) * elSize)⟩) el = some items[i]) :
+    parseSlots rec el elSize (p + start * elSize) ((buf.drop (start * elSize)).take (cnt * elSize)) (List.range cnt) =
+      some items := by
+  have hsc : start * elSize + cnt * elSize ≤ buf.length := by rw [← Nat.add_mul]; exact hfit
+  apply parseSlots_all rec el elSize (p + start * elSize) _ (List.range cnt) items (by simp [hl])
+  intro i hi hi'
+  have hic : i < cnt := by simpa using hi
+  simp only [List.getElem_range]
+  have hmul : (i + 1) * elSize ≤ cnt * elSize := Nat.mul_le_mul_right elSize hic
+  rw [Nat.add_mul, Nat.one_mul] at hmul
+  have hlen : ((buf.drop (start * elSize)).take (cnt * elSize)).length = cnt * elSize := by
+    simp only [List.length_take, List.length_drop]; omega
+  refine ⟨by rw [hlen]; exact hmul, ?_⟩
+  have hwin : (((buf.drop (start * elSize)).take (cnt * elSize)).drop (i * elSize)).take elSize =
+      (buf.drop ((start + i) * elSize)).take elSize := by
+    rw [List.drop_take, List.drop_drop, List.take_take, Nat.add_mul]
+    congr 1
+    omega
+  have haddr : p + start * elSize + i * elSize = p + (start + i) * elSize := by rw [Nat.add_mul]; omega
+  rw [hwin, haddr]
+  exact h i hic hi'
+
+/-- **VecDeque end to end** (EVERY capacity, also above CAP_GUARD; repaired by 6655f7c): header says `len = n ≤ LEN_GUARD`,
+    `head`, capacity `cap`, pointer `p`; the memory at `p` holds the ring buffer `buf` (`cap` slots); the element decoder
+    shows `items[i]` on the image in slot `(head + i) % cap` of the buffer ⇒ the deque is shown as exactly `items`, in
+    logical order — for every ring position, wrapped or not.  Only the shown capacity goes through `guard_cap`. -/
 theorem deque_end_to_end (c : Ctx) (rec : Rec) (sv : Val) (id : Nat) (tps : List (String × Option Nat))
     (inner el n cap head p : Nat) (buf : Bytes) (items : List Val)
     (hT : lookupTParam tps "T" = some inner)
     (hlen : assumeScalarNumber sv "len" = some (n : Int)) (hn : (n : Int) ≤ LEN_GUARD)
     (hel : c.size inner = some el) (hel0 : 0 < el)
-    (hcap : extractCapacity c.ver sv = some cap) (hcg : CapWithinGuard cap) (hc0 : 0 < cap) (hnc : n ≤ cap)
+    (hcap : extractCapacity c.ver sv = some cap) (hc0 : 0 < cap) (hnc : n ≤ cap)
     (hhead : assumeScalarNumber sv "head" = some (head : Int)) (hh64 : head < 2 ^ 64)
-    (hp : assumePointer sv "pointer" = some p)
-    (hrd : c.rd p (cap * el) = some buf) (hbuf : buf.length = cap * el)
+    (hp : assumePointer sv "pointer" = some p) (haddr : p + cap * el < 2 ^ 64)
+    (hbuf : buf.length = cap * el)
+    (hrd : ∀ off len, off + len ≤ cap * el → c.rd (p + off) len = some ((buf.drop off).take len))
     (hil : items.length = n)
     (hitems : ∀ i (h : i < n) (h' : i < items.length),
       rec (some ⟨(buf.drop (((head + i) % cap) * el)).take el, some (p + ((head + i) % cap) * el)⟩) inner = some items[i]) :
     specialize c rec .vecdeque sv id tps =
-      some (.specVec true sv (vecStructure c sv.tyName inner items cap tps)) := by
+      some (.specVec true sv (vecStructure c sv.tyName inner items (guardCap cap).toNat tps)) := by
   have hg : guardLen (n : Int) = (n : Int) := by
     unfold guardLen; have : ¬ ((n : Int) > LEN_GUARD) := by omega
-    simp [this]
-  have hgc : guardCap (cap : Int) = (cap : Int) := by
-    unfold guardCap; have : ¬ ((cap : Int) > CAP_GUARD) := by unfold CapWithinGuard at hcg; omega
     simp [this]
   have hz : ¬ (el = 0) := by omega
   have hnn : ¬ ((n : Int) < 0) := by omega
   have hhn : (((head : Int) % ((2 ^ 64 : Nat) : Int)).toNat) = head := by
     have : (head : Int) % ((2 ^ 64 : Nat) : Int) = (head : Int) := Int.emod_eq_of_lt (by omega) (by exact_mod_cast hh64)
     rw [this, Int.toNat_natCast]
-  have hslots := ringIdx_spec cap head n hc0 hnc
-  have hps : parseSlots rec inner el p buf (ringIdx cap head n) = some items := by
-    rw [hslots]
-    apply parseSlots_all rec inner el p buf _ items (by simp [hil])
+  -- the header
+  simp only [specialize, hT, hlen, hcap, hp, hel, hg, hnn, hhn, hhead, Int.toNat_natCast, hz, if_false,
+    Option.bind_eq_bind, Option.bind_some, Option.pure_def, bind, pure]
+  -- the two ranges
+  obtain ⟨hb0, hb1, hsum⟩ := ringRanges_bounds cap head n hc0 hnc
+  have hL := ringIdx_ranges cap head n
+  rw [ringIdx_spec cap head n hc0 hnc] at hL
+  generalize ringRanges cap head n = r at hb0 hb1 hsum hL ⊢
+  obtain ⟨ws, n0, n1⟩ := r
+  simp only at hb0 hb1 hsum hL ⊢
+  have hm0 : (ws + n0) * el ≤ cap * el := Nat.mul_le_mul_right el hb0
+  have hm1 : n1 * el ≤ cap * el := Nat.mul_le_mul_right el hb1
+  have hs0 : ∀ i, i < n0 → (head + i) % cap = ws + i := by
+    intro i hi
+    have h := congrArg (fun l => l[i]?) hL
+    have hin : i < n := by omega
+    simp [List.getElem?_append, hi, hin] at h
+    omega
+  have hs1 : ∀ j, j < n1 → (head + (n0 + j)) % cap = j := by
+    intro j hj
+    have h := congrArg (fun l => l[n0 + j]?) hL
+    have hin : n0 + j < n := by omega
+    simp [hj, hin] at h
+    omega
+  have hovf : ¬ (p + (ws + n0) * el ≥ 2 ^ 64 ∨ p + n1 * el ≥ 2 ^ 64) := by omega
+  have hr0 : c.rd (p + ws * el) (n0 * el) = some ((buf.drop (ws * el)).take (n0 * el)) :=
+    hrd (ws * el) (n0 * el) (by rw [← Nat.add_mul]; exact hm0)
+  have hr1 : c.rd p (n1 * el) = some ((buf.drop (0 * el)).take (n1 * el)) := by
+    have := hrd 0 (n1 * el) (by omega)
+    simpa using this
+  have hp0 : parseSlots rec inner el (p + ws * el) ((buf.drop (ws * el)).take (n0 * el)) (List.range n0) =
+      some (items.take n0) := by
+    apply parseSlots_window rec inner el p buf ws n0 (items.take n0) (by rw [hbuf]; exact hm0) (by simp; omega)
     intro i hi hi'
-    have hin : i < n := by simpa using hi
-    simp only [List.getElem_map, List.getElem_range]
-    refine ⟨?_, hitems i hin hi'⟩
-    have hlt : (head + i) % cap < cap := Nat.mod_lt _ hc0
-    have : ((head + i) % cap + 1) * el ≤ cap * el := Nat.mul_le_mul_right el hlt
-    rw [hbuf]; rw [Nat.add_mul, Nat.one_mul] at this; exact this
-  simp only [specialize, hT, hlen, hcap, hp, hel, hg, hgc, hnn, hhn, hhead, Int.toNat_natCast, hrd, hz, hps, if_false,
-    Option.bind_eq_bind, Option.bind_some, Option.pure_def, Option.map_some, bind, pure]
+    rw [List.getElem_take, ← hs0 i hi]
+    exact hitems i (by omega) (by omega)
+  have hp1 : parseSlots rec inner el (p + 0 * el) ((buf.drop (0 * el)).take (n1 * el)) (List.range n1) =
+      some (items.drop n0) := by
+    apply parseSlots_window rec inner el p buf 0 n1 (items.drop n0) (by rw [hbuf]; simpa using hm1) (by simp; omega)
+    intro j hj hj'
+    rw [List.getElem_drop]
+    have := hitems (n0 + j) (by omega) (by omega)
+    rw [hs1 j hj] at this
+    simpa using this
+  have e0 : p + 0 * el = p := by omega
+  rw [e0] at hp1
+  simp only [hovf, hr0, hr1, hp0, hp1, if_false, Option.bind_some, List.take_append_drop]
 
 /-- the scan only looks at the groups it loads: group 0 and the groups `g` with `16 * g < buckets` -/
 theorem hbScanFrom_congr (f f' : Nat → Bytes) (buckets : Nat) (fuel g : Nat)
